@@ -592,11 +592,11 @@ func (root *Root) validateDirUse(where string, loc Location, du *DirectiveUse) (
 			if co, _ := a.Type.(InCoercer); co != nil {
 				if defaultLoop(a.Type, av.Value, map[*InputField]bool{}) {
 					// Reported for the input object. Coercing it would never end.
-				} else if v, err := co.CoerceIn(av.Value); err != nil {
+				} else if v, err := co.CoerceIn(cloneValue(av.Value)); err != nil {
 					errs = append(errs, fmt.Errorf("%w at %d:%d", err, av.line, av.col))
-				} else {
+				} else if !isComposite(av.Value) {
 					// Might as well replace the coerced value since it is really
-					// what is needed. (Lists and maps can not be compared.)
+					// what is needed. A list or an object stays as written.
 					av.Value = v
 				}
 			}
